@@ -498,6 +498,10 @@ ensures unmoved(*old(p), *final(p)), r.kind == self.kind, r.pos == self.pos,
             REQ_NODE_START.setdefault(_nm, NODE_START)
     except KeyError:
         pass
+    # C05 (index expressions nest per the table): an INDEXED_IDENTIFIER node wraps an identifier -- what its `identifier()` accessor
+    # hands out -- and an INDEX_EXPR wraps anything else (a call, a parenthesised expression, ...)
+    REQ_NODE_START['indexed_identifier'] = '\n    lhs.kind == SyntaxKind::IDENTIFIER,        //@C05,C06:indexed-identifier-wraps-an-identifier\n   '
+    REQ_NODE_START['index_expr'] = '\n    lhs.kind != SyntaxKind::IDENTIFIER,        //@C05,C06:index-expression-wraps-a-non-identifier\n   '
     LOOPS = {
         'source_file_contents': {1: 'invariant crate::parser::mono(*old(p), *p),\nensures crate::parser::mono(*old(p), *p), crate::parser::cur(p.st()) == SyntaxKind::EOF || (stop_on_r_curly && crate::parser::cur(p.st()) == SyntaxKind::R_CURLY),\ndecreases crate::parser::rem(p.st()),'}, 'switch_case_stmt': {1: 'invariant crate::parser::mono(*old(p), *p), p.pos > old(p).pos,\ndecreases crate::parser::rem(p.st()),'}, 'expr_block_statements': {1: DEC},
         'expr_bp': {1: 'invariant crate::parser::done_at(p.events@, lhs.pos as int), lhs.pos >= old(p).events@.len(), crate::parser::mono(*old(p), *p), bp >= 1, p.pos > old(p).pos,\ndecreases crate::parser::rem(p.st()),'},
